@@ -104,8 +104,10 @@ fn render(c: &Case) -> String {
         })
         .collect();
     // (the prefix is only printed when present: cases rendered before it existed keep their text)
+    let style = id_style_of(c);
     format!(
-        "{}handles={} observe={} ops: {}",
+        "{}{}handles={} observe={} ops: {}",
+        if style > 0 { format!("handle ids: {}; ", ["", "(h+1)<<32 | 7", "id<<16 | 0x2a", "u64::MAX - id", "1<<63 | id", "0xdeadbeef<<32 | id<<16"][style as usize]) } else { String::new() },
         if c.warm > 0 { format!("graph after {} unrelated warm-up insertions; ", c.warm) } else { String::new() },
         c.nh,
         if c.every_step { "is_proven-every-step" } else { "get_node-every-step" },
@@ -399,8 +401,40 @@ fn key_of(h: usize) -> FactKey {
     // the shape search.rs gives to cached derivations: "<Type>.derived"
     FactKey::from_pattern(&format!("{}.derived", NAMES[h]))
 }
+thread_local! {
+    /// How the case numbers its handles (set at the start of `execute`, a pure function of the case):
+    /// 0 small ids; 1 ids that agree in their low 32 bits; 2 ids that agree in their low 16 bits; 3 ids just below
+    /// u64::MAX; 4 ids with the top bit set; 5 ids that agree in their HIGH 32 bits and are multiples of 2^16
+    static ID_STYLE: std::cell::Cell<u8> = const { std::cell::Cell::new(0) };
+}
+
+/// `FactHandle` ids are arbitrary u64: nothing in the statement depends on their size or bit pattern.
 fn handle_of(h: usize) -> FactHandle {
-    FactHandle::new(IDS[h])
+    let h64 = h as u64;
+    FactHandle::new(match ID_STYLE.with(|c| c.get()) {
+        1 => ((h64 + 1) << 32) | 7,
+        2 => ((IDS[h]) << 16) | 0x2a,
+        3 => u64::MAX - IDS[h],
+        4 => (1 << 63) | IDS[h],
+        5 => (0xdead_beef << 32) | (IDS[h] << 16),
+        _ => IDS[h],
+    })
+}
+
+fn id_style_of(c: &Case) -> u8 {
+    let h = c.ops.iter().fold(c.nh as u64 + 17, |a, o| {
+        let x = match *o {
+            Op::Query(h) => h as u64,
+            Op::Insert(h, m) => 5 + h as u64 * 256 + m as u64,
+            Op::Invalidate(h) => 2 + h as u64 * 16,
+        };
+        a.wrapping_mul(0x9e37_79b9).wrapping_add(x)
+    });
+    if h % 2 == 0 {
+        0
+    } else {
+        1 + ((h / 2) % 5) as u8
+    }
 }
 
 struct Mismatch {
@@ -606,6 +640,11 @@ fn diamond_below(dep: &[u8], nh: usize, root: usize) -> bool {
 
 fn execute(case: &Case, ctx: &mut Ctx) -> Verdict {
     let nh = case.nh;
+    let style = id_style_of(case);
+    ID_STYLE.with(|c| c.set(style));
+    if style > 0 {
+        ctx.label(["", "ids:same-low-32-bits", "ids:same-low-16-bits", "ids:near-u64-max", "ids:top-bit-set", "ids:same-high-32-bits"][style as usize]);
+    }
     let mut g = ProofGraph::new();
     for w in 0..case.warm {
         let h = FactHandle::new(100_000 + w as u64);
